@@ -189,6 +189,11 @@ func runScenario(t *testing.T, sc scenario) (events []ev) {
 				acq = s
 				mu.Unlock()
 				events = append(events, ev{"k": "acq", "accept": s.Accept, "limit": s.Limit, "err": s.Err})
+			case "global":
+				// the schema's configured global limit changes (the cluster's object is updated): the gateway syncs the new schema
+				sc.Global = s.Q
+				lim.Sync(spec(sc))
+				events = append(events, ev{"k": "global", "q": s.Q})
 			case "sleep":
 				time.Sleep(time.Duration(s.Ms) * time.Millisecond)
 				synctest.Wait()
